@@ -453,7 +453,7 @@ func c10LongChain(c *Case) {
 // inside ONE process, and each result is compared with the reference for exactly that text: the meaning of a text
 // must not depend on which look-alike was compiled before it.
 var c10LookDoc = xdoc.MustParseXML(`<r><x id="1"><a>12</a><b>3</b><a-b>9</a-b><adivb>7</adivb><aandb>1</aandb><amodb>5</amodb><aorb>0</aorb><a--b>2</a--b><A>100</A></x>`+
-	`<x id="2"><a>5</a><b>-4</b><a-b>1</a-b><adivb>2</adivb><amodb>1</amodb><A>5</A><t>a  b</t></x><x id="3"><a>9</a><b>0</b><t>a b</t><a.b>4</a.b></x><X id="4"><a>9</a><b>9</b></X></r>`, false)
+	`<x id="2"><a>5</a><b>-4</b><a-b>1</a-b><adivb>2</adivb><amodb>1</amodb><A>5</A><t>a  b</t></x><x id="3"><a>9</a><b>0</b><t>a b</t><a.b>4</a.b></x><x id="5"><t>a\</t><a>1</a><b>1</b></x><x id="6"><t>\</t><t>it's</t><a>3</a><b>2</b></x><X id="4"><a>9</a><b>9</b></X></r>`, false)
 
 // numeric members are only ever compared with a number, boolean / node-set members are only used as a predicate
 // (the operand combinations the statements cover)
@@ -476,6 +476,8 @@ var c10LookBoolean = [][]string{
 	{"a|b", "a | b", "a|A", "a | A", "A|a"},
 	{"a>1", "a > 1", "a>-1", "a > -1", "a>- 1", "a >= 1", "a>=1", "a> =1"},
 	{"A", "a", "X", "x"},
+	// a back-slash is an ordinary character of a literal, also as its last one (there are no escapes in XPath literals)
+	{"t='a\\'", "t = 'a\\'", "t=\"a\\\"", "t='a\\' or t='zz'", "t=\"a\\\" or t=\"zz\"", "t='\\'", "t='a\\b'", "t=\"it's\"", "t='say \"x\"'", "t=concat('a', '\\')"},
 }
 var c10LookNumWraps = [][2]string{{"//x[", " = 9]/a"}, {"//x[", " > 2]"}, {"//*[", " != 9]/@id"}, {"/r/x[", " <= 12]/b"}, {"//x[9 = ", "]"}, {"//x[not(", " = 9)]"}}
 var c10LookBoolWraps = [][2]string{{"//x[", "]/a"}, {"//x[", "]"}, {"//*[", "]/@id"}, {"/r/x[", "]/b"}, {"//x[not(", ")]"}, {"//x/a[../", "]"}}
